@@ -21,7 +21,8 @@ def impl_repr(src):
 
 
 def gen_cases(env, n_programs, depth):
-    g = progs.ProgGen(env.rng)
+    # payloads include the newline: an unterminated string must keep its last character
+    g = progs.ProgGen(env.rng, payload_chars=list("abz019 \n") + progs.SYNTAX_PAYLOAD)
     cases = []
     while len(cases) < n_programs:
         p = g.program(env.rng.randint(1, depth))
@@ -31,7 +32,8 @@ def gen_cases(env, n_programs, depth):
     # hand-written seeds covering every structure kind and string kind at the end
     for full, k in (("[1|2]", 1), ("(i|n,)", 1), ("{1|2}", 1), ("λ2|+;", 1), ("ƛ›;", 1), ("'2<;", 1), ("µN;", 1),
                     ("⟨1|2|3⟩", 1), ("@f:1|›;", 1), ("@f;", 1), ("[(λ⟨1|`ab`⟩;)]", 5), ("3(n[`x`|»ab»])", 3),
-                    ("[1|(2|{3|λ4|⟨5⟩;})]", 5), ("v[1|2]", 1), ("₌[1]λ2;", 1), ("[`a`]", 2), ("(«ab«)", 2)):
+                    ("[1|(2|{3|λ4|⟨5⟩;})]", 5), ("v[1|2]", 1), ("₌[1]λ2;", 1), ("[`a`]", 2), ("(«ab«)", 2),
+                    ("`abc\n`", 1), ("λ`ab\n`;", 2), ("«ab\n«", 1), ("[»1\n»]", 2), ("`a `", 1), ("`\n`", 1), ("(`a\n\n`)", 2)):
         cases.append((full, [full[: len(full) - i] for i in range(1, k + 1)]))
     return cases
 
